@@ -6,7 +6,7 @@ import * as A from "./ast.mjs";
 import { Env, Unsupported, C, canon } from "../ref/normalize.mjs";
 
 const PLAIN_KEYS = ["a", "b", "c", "d", "id", "name", "value", "kind", "type", "tag", "x", "y", "items", "next"];
-const HOSTILE_KEYS = ["a-b", "constructor", "toString", "0", "", "has space", "hasOwnProperty", "valueOf", "length", "1e3", "é"];
+const HOSTILE_KEYS = ["a-b", "constructor", "toString", "0", "", "has space", "hasOwnProperty", "valueOf", "length", "1e3", "é", "007", "01", "00", "10", "0x10", "1.0", "-1", "1_000"];
 const HOSTILE_NAMES = ["constructor", "valueOf", "toString", "hasOwnProperty", "__proto__", "Price$$", "A$$B", "$", "isPrototypeOf"];
 const HOSTILE_LITS = ['say "hi"', 'C:\\dir\\"my file"', '"a"\n"b"', "it's", "back`tick", "${x}", "a\\b", "line\nbreak", "\u2028", "é€😀", "'\"", "*/", "</script>", "\\", "tab\there"];
 const STR_LITS = ["a", "b", "c", "x", "y", "ok", "err", "A", "", "a b", "toString", "constructor", "0", "true", "null"];
@@ -491,6 +491,11 @@ export class TypeGen {
       }
       return A.obj(r.chance(0.5) ? all : r.shuffle(all));
     });
+    // sometimes two variants carry the SAME tag value and overlap (optional members only differ)
+    if (r.chance(0.15) && branches.length >= 2 && branches[0].k === "obj") {
+      const twin = A.obj([A.prop(key, A.lit(vals[0])), A.prop("twin_label", A.kw("string"), true)]);
+      branches.splice(1, 0, twin);
+    }
     if (r.chance(0.2)) {
       // factor a shared base through an intersection
       const base = A.obj([A.prop("base_f", this.scalarLeaf())]);
